@@ -435,6 +435,43 @@ func checkC09(v *tunView, m *connModel) {
 		}
 		if ep.EndWhy == "async-reconnect" {
 			e.Probe("reconnect-after-heartbeat-failure")
+			// A heartbeat fails only when an answer with an error status arrives, when its request
+			// cannot be written, or when the response timeout has run out - not earlier. The failed
+			// exchange is the last chain of requests (spaced by the resend interval) before the
+			// connect request; requests of the previous epoch's last exchange do not count.
+			var chain []wireEv
+			for i := len(hb) - 1; i >= 0; i-- {
+				if hb[i].F.Channel != ep.Channel {
+					continue
+				}
+				if len(chain) > 0 && chain[len(chain)-1].At.T-hb[i].At.T > c.R+eps {
+					break
+				}
+				chain = append(chain, hb[i])
+			}
+			excused := len(chain) == 0
+			t0 := ep.End.T
+			if !excused {
+				t0 = chain[len(chain)-1].At.T
+				if ep.End.T-chain[0].At.T > c.R+eps {
+					excused = true // the loop was held up somewhere between the exchange and the reconnect: not this exchange's timing
+				}
+			}
+			for _, x := range v.tx {
+				if x.Werr && x.F.OK && x.F.Svc == svcConnStateReq && x.At.Seq > ep.Start.Seq && x.At.Seq <= ep.End.Seq {
+					excused = true
+				}
+			}
+			for _, y := range v.rx {
+				if y.F.OK && y.F.Svc == svcConnStateRes && y.F.Channel == ep.Channel && y.F.Status != 0 && y.At.T >= t0-c.R-eps && y.At.Seq <= ep.End.Seq {
+					excused = true
+				}
+			}
+			if !excused && ep.End.T-t0 < c.T-eps {
+				e.Violate("C09", "heartbeat-failed-early", "epoch %d (channel %d): the heartbeat exchange begun at %v was given up at %v (connect request), %v later; the response timeout is %v and no error status was received", k, ep.Channel, t0, ep.End.T, ep.End.T-t0, c.T)
+			} else if !excused {
+				e.Probe("heartbeat-timeout-honoured")
+			}
 		}
 	}
 	// (d) after a reconnect every newly transmitted request carries the new channel and starts at 0
